@@ -32,7 +32,10 @@ META = {
 THEOREMS = ['Scalibr.Unpack.C06_unpack_contained_partial', 'Scalibr.Unpack.C06_resolution_stays_inside', 'Scalibr.Unpack.Contained_of_Safe',
             'Scalibr.Unpack.unpackAll_safe', 'Scalibr.Unpack.resolve_inside', 'Scalibr.Unpack.outsideUnchangedB_sound',
             'Scalibr.Unpack.linksInsideB_of_Contained', 'Scalibr.Unpack.C06_fuel_monotone', 'Scalibr.Unpack.C06_fuel_adequate_nolink',
-            'Scalibr.Unpack.C06_hypothesis_only_sufficient', 'Scalibr.Unpack.C06_unpack_contained_fails', 'Scalibr.Unpack.C06_unpack_not_contained', 'Scalibr.Unpack.C06_unpack_outside_unchanged']
+            'Scalibr.Unpack.C06_hypothesis_only_sufficient', 'Scalibr.Unpack.C06_unpack_contained_fails', 'Scalibr.Unpack.C06_unpack_not_contained', 'Scalibr.Unpack.C06_unpack_outside_unchanged',
+            'Scalibr.Unpack.C06_unpack_outside_unchanged_cfg', 'Scalibr.Unpack.C06_unpack_contained_cfg_partial', 'Scalibr.Unpack.unpackAllC_safeG',
+            'Scalibr.Unpack.linkAt_safe', 'Scalibr.Unpack.C06_unpack_nonretain_reads_working_directory', 'Scalibr.Unpack.C06_unpack_outside_unchanged_cut']
+CWD_KEY = 'C06/nonretain-link-copy-reads-working-directory'
 
 THEOREMS_LOAD = ['Scalibr.ImageLife.C06_load_failed_restores', 'Scalibr.ImageLife.C06_load_cleanup_restores', 'Scalibr.ImageLife.C06_load_others_untouched',
                  'Scalibr.ImageLife.loop_failed', 'Scalibr.ImageLife.loop_others',
@@ -148,6 +151,14 @@ def _judge(case, fi, fm):
         if lean != (out_ok, links_ok):
             return 'the Lean and the Python evaluation of Contained disagree on the same snapshot (%s vs %s): oracle fault' % (lean, (out_ok, links_ok)), None
     if out_ok and links_ok:
+        t = case.split(' ')
+        cfgtok = t[1] if t[0] == 'upc' else (t[2] if t[0] == 'upx' else '1,')
+        if cfgtok.startswith('0,') and fi.get('snap') == fm.get('snap'):
+            # non-retain mode: a copy written for a link holds one of the contents 90..95, which only the process's working directory has
+            got = sorted(p for p, v in _parse_snap(fi['snap']).items() if p.startswith('@/sb/target/') and v in ('f90', 'f91', 'f92', 'f93', 'f94', 'f95'))
+            if got:
+                return ('SymlinkIgnore mode: the copy written for a link with a relative target holds the content of a file of the WORKING DIRECTORY of the '
+                        'process (%s): os.ReadFile(target) with the target as it stands' % ', '.join(got[:3])), CWD_KEY
         return None, None
     if not out_ok:
         # clause 1 holds for EVERY stream since the evaluated-parent checks (C06_unpack_outside_unchanged): no class excuses it
@@ -162,13 +173,15 @@ def run(ctx):
                    'OS model of Model/Unpack.lean: kernel path resolution, os.Lstat/Stat/MkdirAll/WriteFile/Symlink/Remove, filepath.EvalSymlinks/WalkDir, NAME_MAX=255 — validated by snapshot equality on every case',
                    'archive/tar delivers the generated headers; path.Clean/Join as modelled in Model/GoPath.lean',
                    'harness/cmd/c06gen (sandbox 30 levels below its temp dir, recursive lstat-based snapshots) + lean/Drivers/C06.lean line protocol', 'Lean compiler for the driver executable']
-    ctx.assumptions = ['DefaultUnpackerConfig (SymlinkRetain, SymlinkErrLog, MaxPass 3, require-all, 1 GB limit)',
+    ctx.assumptions = ['the process\'s working directory is a directory four levels deep without links (relative link targets are read from it in the non-retain mode)',
                        'the directories above the target are plain directories (true in the sandbox; the model resolves absolute link targets from the target directory)',
                        'hard links are unpacked as symbolic links by the code and are modelled so',
                        'the scan half ("any built-in plugin leaves the scanned tree untouched") is observed, not proved']
     ctx.rule = ('case = tar stream of 1..6 entries; names of 1..3 segments from a,b,c,"..",".","",target,target-evil,secret,sb, a 200-byte and a 300-byte name, optionally absolute or with a '
                 'trailing slash (45% of cases use plain names so that the links matter); regular files, symbolic links (relative, absolute, "/", ".", "x/..", "../x", empty), hard links, '
-                'directories, fifos; 20% start with a link followed by a write through it. non-trivial = something exists below the target afterwards; distinct = distinct case lines')
+                'directories, fifos; 20% start with a link followed by a write through it; two fifths of the archives are unpacked with another UnpackerConfig (symlink resolution '
+                'retain / non-retain, error strategy log / return, MaxPass 0..4, MaxFileBytes 0/1/2/3/default against bodies of 2-3 bytes, requirer all / none / a path set drawn from '
+                'the spellings the unpacker looks entries up by), the model takes the same configuration. non-trivial = something exists below the target afterwards; distinct = distinct case lines')
     ok, _ = ctx.lean_build(['Scalibr.Properties.C06', 'Scalibr.Properties.C06Load', 'drv_c06', 'drv_c06l'])
     proofs_ok = ctx.audit(['Scalibr.Properties.C06', 'Scalibr.Properties.C06Load'], THEOREMS + THEOREMS_LOAD)
     if ctx.tier == 'thorough':
@@ -188,9 +201,16 @@ def run(ctx):
         return '402f73622f7461726765742f' in fi.get('snap', '')          # "@/sb/target/"
 
     def classify(case, fi, fm):
-        return 'err=%s contained=%s h=%s' % (fi.get('err', fi.get('_')), fm.get('contained'), fm.get('h'))
+        t = case.split(' ')
+        if t[0] == 'upx':
+            t = ['upc'] + t[2:]
+            cut = ' cut'
+        else:
+            cut = ''
+        cfg = 'default' if t[0] == 'up' else 'retain=%s errReturn=%s req=%s%s' % (t[1][0], t[1][2], t[2][0], cut)
+        return 'cfg %s err=%s contained=%s h=%s' % (cfg, fi.get('err', fi.get('_')), fm.get('contained'), fm.get('h'))
 
-    if ctx.replay and any(l.startswith(('load ', 'load2 ')) for l in open(ctx.replay)):
+    if ctx.replay and any(l.startswith(('load ', 'load2 ', 'load3 ')) for l in open(ctx.replay)):
         load_stream(ctx, replay=ctx.replay)          # a replay file of the load stream
         if not proofs_ok:
             lib.proof_failed(ctx, 'Scalibr.Properties.C06')
@@ -211,7 +231,33 @@ def run(ctx):
 
 
 SCAN_KEY = 'C06/rpm-sqlite-opened-read-write'
-VARIANT = {'0': 'valid', '1': 'zero-byte', '2': 'truncated', '3': 'random bytes', '4': '8 bytes flipped', '5': 'missing'}
+VARIANT = {'0': 'valid', '1': 'zero-byte', '2': 'truncated', '3': 'random bytes', '4': '8 bytes flipped', '5': 'missing',
+           '6': 'valid, but reads through the virtual file system fail half-way', '7': 'first alternative valid content', '8': 'second alternative valid content',
+           '9': 'a directory of that name'}
+PROFILE = {'0': 'default scan options', '1': 'PathsToExtract (directories, a file, a missing path) + UseGitignore',
+           '2': 'ReadSymlinks + StoreAbsolutePath + MaxFileSize 2048, a third of the files are symbolic links to copies outside the tree, a dangling link',
+           '3': 'PathsToExtract + IgnoreSubDirs + DirsToSkip + SkipDirGlob + SkipDirRegex + ErrorOnFSErrors', '4': 'MaxInodes 25 + UseGitignore',
+           '5': 'rpm / .NET PE / containerd extractors with a stats collector, rpm Timeout 0', '6': 'rpm / .NET PE / containerd extractors with small size limits and a stats collector'}
+LEAK_KEY = 'C06/getrealpath-leaks-tempdir-on-copy-error'
+REALPATH_USERS = re.compile(r'(/rpmdb\.sqlite|/Packages|/Packages\.db|\.dll|\.exe)$')
+
+
+def _getrealpath_class(case, f, files):
+    """class predicate of the known finding (ScanInput.GetRealPath leaves its temporary directory behind when copying the file out of a
+    virtual file system fails): virtual route, some file an extractor hands to GetRealPath (rpm databases, PE files) has the
+    failing-read variant, nothing but TMPDIR changed, and TMPDIR gained only scalibr-tmp<n> directories holding the partial copy
+    `file`, at most one per such file"""
+    t = case.split(' ')
+    if t[1] not in 'vxn' or f.get('diff') != '-' or f.get('cwd') != '-' or f.get('out', '-') != '-' or len(t[3]) > len(files):
+        return False
+    culprits = sum(1 for k, c in enumerate(t[3]) if c == '6' and REALPATH_USERS.search('/' + files[k]))
+    dirs, inner = set(), set()
+    for it in _dec_items(f.get('tmp')):
+        m = re.match(r'^created (scalibr-tmp\d+)(/file)? ([df]):', it)
+        if not m or (m.group(2) is None) != (m.group(3) == 'd'):
+            return False
+        (inner if m.group(2) else dirs).add(m.group(1))
+    return 1 <= len(dirs) <= culprits and inner <= dirs
 
 
 def _scan_table(binary):
@@ -234,12 +280,14 @@ def _dec_items(s):
 
 def _tree_text(case, files, defaults):
     t = case.split(' ')
-    if len(t) != 4 or len(t[3]) != len(files):
+    if len(t) not in (4, 5) or len(t[3]) > len(files):
         return 'tree: ' + case
+    prof = t[4] if len(t) == 5 else '0'
     odd = ['%s=%s' % (files[k], VARIANT.get(c, c)) for k, c in enumerate(t[3]) if c != defaults[k]]
     return 'route=%s (%s); tree = every production file valid, -wal/-shm/-journal absent, except: %s' % (
         t[1], {'r': 'real directory root', 'v': 'virtual FS', 'w': 'real directory root, Windows capabilities', 'x': 'virtual FS, Windows capabilities',
-               'm': 'real directory root, macOS capabilities', 'n': 'virtual FS, macOS capabilities'}.get(t[1], t[1]), '; '.join(odd) or '(nothing: the pristine tree)')
+               'm': 'real directory root, macOS capabilities', 'n': 'virtual FS, macOS capabilities'}.get(t[1], t[1]),
+        '; '.join(odd) or '(nothing: the pristine tree)') + ('' if prof == '0' else '; scan options: ' + PROFILE.get(prof, prof))
 
 
 def _rpm_sqlite_class(case, f, files):
@@ -288,12 +336,14 @@ def scan_stream(ctx, replay=None):
         rows += r
         if not ok:
             ctx.violation('c06scan crashed: ' + '; '.join(ctx.notes[-1:]), ['# see notes'], found_input=False, name='gencrash-c06scan')
-    scans, panics, reported = 0, {}, 0
+    scans, panics, reported, leaks = 0, {}, 0, 0
     for case, reply in rows:
         f = lib.fields(reply)
         scans += 1
-        changed = f.get('diff') != '-' or f.get('tmp') != '-' or f.get('cwd') != '-'
-        ctx.add_case(case, True, 'scan route=%s %s%s' % (case.split(' ')[1] if ' ' in case else '?', f.get('status', reply), ' CHANGED' if changed else ''))
+        changed = f.get('diff') != '-' or f.get('tmp') != '-' or f.get('cwd') != '-' or f.get('out', '-') != '-'
+        tk = case.split(' ')
+        ctx.add_case(case, int(f.get('pkgs', '0') or 0) > 0, 'scan route=%s options=%s %s%s' % (tk[1] if len(tk) > 1 else '?', tk[4] if len(tk) > 4 else '0',
+                                                                                            f.get('status', reply), ' CHANGED' if changed else ''))
         if 'diff' not in f:
             ctx.violation('c06scan could not run a case (harness / file-table skew): %s' % reply, [case + '\t' + reply], found_input=False, name='scan-skew')
             continue
@@ -302,8 +352,12 @@ def scan_stream(ctx, replay=None):
             panics.setdefault(msg, _tree_text(case, files, defaults))
         if not changed:
             continue
-        what = 'tree: %s | TMPDIR: %s | cwd: %s' % ('; '.join(_dec_items(f['diff'])) or '-', '; '.join(_dec_items(f['tmp'])) or '-', '; '.join(_dec_items(f['cwd'])) or '-')
+        what = 'tree: %s | TMPDIR: %s | cwd: %s | files outside the tree that links of the tree point to: %s' % (
+            '; '.join(_dec_items(f['diff'])) or '-', '; '.join(_dec_items(f['tmp'])) or '-', '; '.join(_dec_items(f['cwd'])) or '-', '; '.join(_dec_items(f.get('out'))) or '-')
         text = 'a scan changed the file system (%s). %s' % (what, _tree_text(case, files, defaults))
+        if _getrealpath_class(case, f, files) and ctx.known_finding(LEAK_KEY, text):
+            leaks += 1
+            continue
         if reported < 3:
             reported += 1
             ctx.violation(text, ['# ' + _tree_text(case, files, defaults), '# ' + what, case + '\t' + reply])
@@ -327,9 +381,12 @@ KIND = {'c': 'a regular file followed by an entry beneath it', 't': 'archive cut
         'b': 'file of exactly MaxFileBytes (fail-open)', 'o': 'symlink pointing outside the root (fail-open)', 'u': 'unsupported entry type (skipped)',
         'v': 'invalid config (fails before any directory exists)', '-': 'nothing wrong',
         'e': 'Uncompressed() of the layer returns an error', 'p': 'os.Mkdir of the first layer directory fails (TMPDIR at the edge of PATH_MAX)',
-        'm': 'os.MkdirTemp fails (TMPDIR does not exist)', 'y': 'v1.Image.Layers() returns an error'}
+        'm': 'os.MkdirTemp fails (TMPDIR does not exist)', 'y': 'v1.Image.Layers() returns an error',
+        'k': 'a regular file followed by a directory entry beneath it', 'w': 'whiteouts, opaque marker, directory entry after its contents, names "/", ".", "a/." (nothing wrong)',
+        'g': 'ConfigFile() of the image returns an error (no history; nothing wrong)',
+        'z': 'every entry point misused first (missing / bogus / truncated tarball, zero configurations, "" and nil arguments, DefaultConfig); then a normal load'}
 # which exit of FromV1Image a kind takes (Model/ImageLife.lean: Run / LayerRun fields)
-EXIT = {'v': 'pre', 'y': 'pre', 'm': 'mktemp', 'p': 'mkdir', 'e': 'opened', 'c': 'filled', 't': 'filled', 'h': 'filled', 'l': 'filled', 'n': 'filled'}
+EXIT = {'v': 'pre', 'y': 'pre', 'm': 'mktemp', 'p': 'mkdir', 'e': 'opened', 'c': 'filled', 't': 'filled', 'h': 'filled', 'l': 'filled', 'n': 'filled', 'k': 'filled'}
 
 
 def _model_only_runs():
@@ -356,7 +413,7 @@ def load_stream(ctx, replay=None):
     if binary is None:
         ctx.violation('harness c06load does not build against /repo: %s' % getattr(ctx, 'go_log', '')[-1500:], ['# c06load'], found_input=False, name='build-c06load')
         return
-    args = ['-replay', replay] if replay else ['-seed', str(ctx.seed), '-n', str({'quick': 1200, 'thorough': 20000}[ctx.tier])]
+    args = ['-replay', replay] if replay else ['-seed', str(ctx.seed), '-n', str({'quick': 700, 'thorough': 12000}[ctx.tier])]
     rows, ok = ctx.run_gen(binary, args, timeout=3000)
     if not ok:
         ctx.violation('c06load crashed: ' + '; '.join(ctx.notes[-1:]), ['# see notes'], found_input=False, name='gencrash-c06load')
@@ -369,12 +426,18 @@ def load_stream(ctx, replay=None):
         if t[0] == 'load':
             t = ['load2', 'L' * int(t[1]), t[2], t[3], t[4], '0', '0']
         hist, fail, kind, pos, decoys, seed = t[1], t[2], t[3], t[4], t[5], t[6]
+        req, entry = (t[7], t[8]) if len(t) == 9 else ('A', 'v')
         hostile = seed != '0'
         ctx.add_case(case, fail != '-' or kind != '-' or hostile, 'load kind=%s hostile=%d err=%s' % (kind, hostile, f.get('err', reply)))
         stats['loads'] += 1
         stats['loads with hostile entries in every archive'] += hostile
         stats['loads with directories already in TMPDIR'] += decoys != '0'
         stats['loads with empty-layer history entries'] += 'E' in hist
+        stats['loads with an invalid history (fallback: one chain layer per archive)'] += 'X' in hist
+        stats['loads with requirer ' + {'A': 'all', 'N': 'none', 'P': 'path set'}.get(req, req)] += 1
+        stats['loads through image.' + ('FromTarball' if entry == 't' and kind not in 'eyg' else 'FromV1Image')] += 1
+        if f.get('uerr', '-') != '-':
+            stats['UnpackSquashed of the same image: ' + ('error returned' if f.get('uerr') == '1' else 'ok')] += 1
         if f.get('err') == '1':
             stats['failed loads, exit ' + EXIT.get(kind, '?')] += 1
         what = None
@@ -391,8 +454,21 @@ def load_stream(ctx, replay=None):
             what = 'the load changed something outside the image directory: ' + _unhex(f.get('out'))
         elif f.get('esc', '-') != '-':
             what = 'the image directory holds an object that leads out of it: ' + _unhex(f.get('esc'))
-        desc = 'chain layers %s (L archive, E empty-layer entry), %s director%s already in TMPDIR; layer %s: %s, after %s good entries; %s' % (
-            hist, decoys, 'y' if decoys == '1' else 'ies', fail, KIND.get(kind, kind), pos,
+        elif f.get('err') == '0' and f.get('acc') != '1':
+            what = 'ChainLayers() does not list one chain layer per history entry (per archive when the history is invalid or missing), or Size() is negative'
+        elif f.get('misuse', '0') != '0':
+            what = ('a misused entry point (missing / bogus tarball, zero UnpackerConfig, empty directory, nil image, truncated tarball) did not fail, or '
+                    'changed the sandbox (code %s: units = calls that returned no error, 100 / 1000 = something changed)' % f.get('misuse'))
+        elif f.get('uout', '-') != '-':
+            what = 'UnpackSquashed of the image changed something outside its target directory (TMPDIR included): ' + _unhex(f.get('uout'))
+        elif f.get('uesc', '-') != '-':
+            utext = 'UnpackSquashed of the image left a link inside its target that leads out of it: ' + _unhex(f.get('uesc'))
+            if f.get('udots') == '1' and ctx.known_finding(KEY, utext + ' (some relative link target of the image has a "..")'):
+                stats['UnpackSquashed: known finding ' + KEY] += 1
+            else:
+                what = utext
+        desc = 'chain layers %s (L archive, E empty-layer entry, X archive marked empty), requirer %s, entry point image.%s, %s director%s already in TMPDIR; layer %s: %s, after %s good entries; %s' % (
+            hist, req, 'FromTarball' if entry == 't' else 'FromV1Image', decoys, 'y' if decoys == '1' else 'ies', fail, KIND.get(kind, kind), pos,
             'hostile entries (names with .., absolute paths into the sandbox, links out and writes through them; seed %s) in every archive' % seed
             if hostile else 'benign entries otherwise')
         if what:
